@@ -65,6 +65,16 @@ Definition chip_entries (c : kchip) : list tentry :=
                    t_label := to_fres k_text (ks_label s) |}) (filter sensor_visible (kc_sensors c)).
 Definition hwmon_entries (chips : list kchip) : list tentry := flat_map chip_entries chips.
 
+(* /sys/devices/platform/coretemp.N/hwmon/hwmonK/tempM_* : psutil appends every such FILE name to the list of
+   basenames (after the sort), so the entry's "<name>_input" never exists *)
+Definition absent_entry (name : kf bytes) : tentry :=
+  {| t_input := FAbsent; t_name := to_fres k_text name; t_max := FAbsent; t_crit := FAbsent; t_label := FAbsent |}.
+Definition n_files (s : ksensor) : nat :=
+  ((if ks_other s then 1 else 0) + (if exists_file (ks_input s) then 1 else 0) + (if exists_file (ks_max s) then 1 else 0)
+   + (if exists_file (ks_crit s) then 1 else 0) + (if exists_file (ks_label s) then 1 else 0))%nat.
+Definition coretemp_names (plat : list kchip) : list tentry :=
+  flat_map (fun c => flat_map (fun s => repeat (absent_entry (kc_name c)) (n_files s)) (kc_sensors c)) plat.
+
 (* degrees C, or Fahrenheit = C*9/5+32 *)
 Definition spec_unit (fahr : bool) (c : Q) : Q := if fahr then (c * 9 / 5 + 32)%Q else c.
 
@@ -306,8 +316,10 @@ Definition is_lower (c : Z) : bool := (97 <=? c) && (c <=? 122).
 Definition is_lower_dig_us (c : Z) : bool := is_lower c || is_digit c || (c =? 95).
 (* rest of a line: " 12 34 ..." -- digits and single blanks, no newline *)
 Definition rest_ok (r : bytes) : bool := forallb (fun c => is_digit c || (c =? 32)) r.
+Definition cpuN_like (k : bytes) : bool :=
+  match k with 99 :: 112 :: 117 :: d :: _ => is_digit d | _ => false end.
 Definition other_key_ok (k : bytes) : bool :=
-  forallb is_lower_dig_us k && negb (prefixb (bs "ctxt") k) && negb (prefixb (bs "intr") k)
+  forallb is_lower_dig_us k && negb (cpuN_like k) && negb (prefixb (bs "ctxt") k) && negb (prefixb (bs "intr") k)
   && negb (prefixb (bs "softirq") k) && negb (prefixb (bs "btime") k)
   && match k with [] => false | _ => true end.
 Definition statline_ok (l : statline) : bool :=
@@ -359,30 +371,123 @@ Definition stat_ok' (ls : list statline) : bool := forallb sl_ok ls && stat_ok l
 Definition n_cpu_lines (ls : list statline) : Z :=
   fold_right (fun l a => match l with SCpu (_ :: _) _ => a + 1 | _ => a end) 0 ls.
 
-(* ------------------------------------------------------------ /proc/cpuinfo (x86 layout) *)
-Record kproc := { kp_index : bytes; kp_mhz_int : bytes; kp_mhz_frac : bytes;
-                  kp_physical_id : bytes; kp_cores : bytes }.
-Definition kproc_ok (p : kproc) : bool :=
-  is_dec (kp_index p) && is_dec (kp_mhz_int p) && is_dec (kp_mhz_frac p)
-  && is_dec (kp_physical_id p) && is_dec (kp_cores p).
-Definition k_proc (p : kproc) : bytes :=
-  bs "processor" ++ [9; 58; 32] ++ kp_index p ++ [10]
-  ++ bs "model name" ++ [9; 58; 32] ++ bs "Some CPU @ 2.40GHz" ++ [10]
-  ++ bs "cpu MHz" ++ [9; 9; 58; 32] ++ kp_mhz_int p ++ [46] ++ kp_mhz_frac p ++ [10]
-  ++ bs "physical id" ++ [9; 58; 32] ++ kp_physical_id p ++ [10]
-  ++ bs "cpu cores" ++ [9; 58; 32] ++ kp_cores p ++ [10]
-  ++ [10].
-Definition k_cpuinfo (ps : list kproc) : bytes := concat (map k_proc ps).
-Definition spec_mhz (p : kproc) : Q :=
-  match Z.pow 10 (Z.of_nat (length (kp_mhz_frac p))) with
-  | Zpos d => Qmake (dec_val (kp_mhz_int p) * Zpos d + dec_val (kp_mhz_frac p)) d
+(* ------------------------------------------------------------ /proc/cpuinfo *)
+(* arch/x86/kernel/cpu/proc.c and arch/arm/kernel/setup.c: blocks of "key<TAB>[<TAB>]: value" lines, each block
+   closed by an empty line.  x86: one block per logical CPU (processor, cpu MHz, physical id, core id,
+   cpu cores among many others).  ARM: "processor : N" blocks, plus (kernels < 3.8) a "Processor : <model>"
+   header line and a trailing Features/Hardware block. *)
+Inductive cline :=
+| CProcessor (n : bytes)
+| CMhz (ip fp : bytes)               (* "%u.%03u" *)
+| CPhysId (n : bytes)
+| CCoreId (n : bytes)
+| CCores (n : bytes)
+| COther (key : bytes) (two_tabs : bool) (value : bytes).
+Definition cblock := list cline.
+
+Definition ckey (l : cline) : bytes :=
+  match l with
+  | CProcessor _ => bs "processor" | CMhz _ _ => bs "cpu MHz" | CPhysId _ => bs "physical id"
+  | CCoreId _ => bs "core id" | CCores _ => bs "cpu cores" | COther k _ _ => k
+  end.
+Definition ctabs (l : cline) : bytes :=
+  match l with
+  | CMhz _ _ | CCoreId _ => [9]
+  | COther _ t _ => if t then [9] else []
+  | _ => []
+  end.
+Definition cvalue (l : cline) : bytes :=
+  match l with
+  | CProcessor n | CPhysId n | CCoreId n | CCores n => n
+  | CMhz ip fp => ip ++ 46 :: fp
+  | COther _ _ v => v
+  end.
+Definition k_cline (l : cline) : bytes := ckey l ++ 9 :: ctabs l ++ 58 :: 32 :: cvalue l ++ [10].
+Definition k_cblock (b : cblock) : bytes := concat (map k_cline b) ++ [10].
+Definition k_cpuinfo (bs_ : list cblock) : bytes := concat (map k_cblock bs_).
+
+Definition key_char (c : Z) : bool := (32 <=? c) && (c <=? 126) && negb (c =? 58).
+Definition key_ok (k : bytes) : bool :=
+  match k with [] => false | c :: _ => negb (c =? 32) && forallb key_char k end.
+Definition value_ok (v : bytes) : bool := forallb (fun c => (32 <=? c) && (c <=? 126)) v.
+(* an "other" line is none of the typed ones *)
+Definition cline_ok (l : cline) : bool :=
+  match l with
+  | CProcessor n | CPhysId n | CCoreId n | CCores n => is_dec n
+  | CMhz ip fp => is_dec ip && is_dec fp
+  | COther k _ v =>
+    key_ok k && value_ok v && negb (prefixb (bs "cpu mhz") (lower k))
+    && negb (prefixb (bs "physical id") (lower k)) && negb (prefixb (bs "cpu cores") (lower k))
+  end.
+Definition cpuinfo_ok (blocks : list cblock) : bool := forallb (forallb cline_ok) blocks.
+
+(* an "other" key that reads "processor..." when lower-cased: the ARM "Processor : ARMv7 ..." model line *)
+Definition processor_like (l : cline) : bool :=
+  match l with COther k _ _ => prefixb (bs "processor") (lower k) | _ => false end.
+Definition no_processor_like (blocks : list cblock) : bool :=
+  forallb (forallb (fun l => negb (processor_like l))) blocks.
+
+Definition all_lines (blocks : list cblock) : list cline := concat blocks.
+
+(* number of logical CPUs listed = number of "processor : N" lines *)
+Definition n_processors (blocks : list cblock) : Z :=
+  Z.of_nat (length (filter (fun l => match l with CProcessor _ => true | _ => false end) (all_lines blocks))).
+
+(* "cpu MHz" values in file order *)
+Definition mhz_value (ip fp : bytes) : Q :=
+  match Z.pow 10 (Z.of_nat (length fp)) with
+  | Zpos d => Qmake (dec_val ip * Zpos d + dec_val fp) d
   | _ => 0%Q
   end.
-(* cores = sum over packages (distinct physical id, last block wins) of "cpu cores" *)
+Definition spec_mhz_list (blocks : list cblock) : list Q :=
+  flat_map (fun l => match l with CMhz ip fp => [mhz_value ip fp] | _ => [] end) (all_lines blocks).
+
+(* cores = sum over packages (distinct physical id; a later block with the same id replaces the value)
+   of "cpu cores"; a block contributes when it has both lines (the last of each) *)
 Fixpoint pkg_set (k v : Z) (d : list (Z * Z)) : list (Z * Z) :=
   match d with
   | [] => [(k, v)]
   | (k', v') :: r => if k =? k' then (k, v) :: r else (k', v') :: pkg_set k v r
   end.
-Definition spec_cores (ps : list kproc) : Z :=
-  fold_left Z.add (map snd (fold_left (fun d p => pkg_set (dec_val (kp_physical_id p)) (dec_val (kp_cores p)) d) ps [])) 0.
+Definition last_of (f : cline -> option Z) (b : cblock) : option Z :=
+  fold_left (fun acc l => match f l with Some v => Some v | None => acc end) b None.
+Definition block_pkg (b : cblock) : option (Z * Z) :=
+  match last_of (fun l => match l with CPhysId n => Some (dec_val n) | _ => None end) b,
+        last_of (fun l => match l with CCores n => Some (dec_val n) | _ => None end) b with
+  | Some p, Some c => Some (p, c)
+  | _, _ => None
+  end.
+Definition spec_pkgs (blocks : list cblock) : list (Z * Z) :=
+  fold_left (fun d b => match block_pkg b with Some (p, c) => pkg_set p c d | None => d end) blocks [].
+Definition spec_cores (blocks : list cblock) : Z := fold_left Z.add (map snd (spec_pkgs blocks)) 0.
+
+(* x86 block of one logical CPU (what the harness generates) *)
+Record kproc := { kp_index : bytes; kp_mhz_int : bytes; kp_mhz_frac : bytes;
+                  kp_physical_id : bytes; kp_cores : bytes }.
+Definition proc_block (p : kproc) : cblock :=
+  [CProcessor (kp_index p); COther (bs "model name") false (bs "Some CPU @ 2.40GHz");
+   CMhz (kp_mhz_int p) (kp_mhz_frac p); CPhysId (kp_physical_id p); CCoreId (kp_index p); CCores (kp_cores p)].
+
+(* current frequency taken from /proc/cpuinfo (when it lists as many "cpu MHz" values as there are cpufreq
+   policies): MHz -> whole kHz (truncated) -> MHz; min/max still from the policy files *)
+Definition via_khz (m : Q) : Q := (inject_Z (q_trunc (m * 1000)) / 1000)%Q.
+Fixpoint zip_cpuinfo_cur (ms : list Q) (cs : list kcpu) : option (list freq) :=
+  match ms, cs with
+  | [], [] => Some []
+  | m :: ms', Online _ mn mx :: cs' =>
+    match zip_cpuinfo_cur ms' cs' with
+    | Some r => Some ({| fq_cur := via_khz m; fq_min := mhz (dec_val mn); fq_max := mhz (dec_val mx) |} :: r)
+    | None => None
+    end
+  | _, _ => None
+  end.
+
+(* logical CPUs when sysconf is unavailable: "processor" lines, else "cpuN" lines of /proc/stat, else unknown *)
+Definition spec_logical (sysconf : option Z) (blocks : list cblock) (stat : list statline) : option Z :=
+  match sysconf with
+  | Some n => Some n
+  | None =>
+    if n_processors blocks =? 0
+    then (if n_cpu_lines stat =? 0 then None else Some (n_cpu_lines stat))
+    else Some (n_processors blocks)
+  end.
